@@ -1,1 +1,3 @@
-\* assumptions only
+SPECIFICATION TSpec
+INVARIANT Report
+CHECK_DEADLOCK FALSE
